@@ -60,27 +60,26 @@ SubSecond(o) == o % 2
 (* Buckets as a query sees them: [nanos, rows]; rows = <<[i, o, v]>> in    *)
 (* time order; nanos = the result carries a Nanoseconds column             *)
 (***************************************************************************)
-RECURSIVE InsertSorted(_, _)
-InsertSorted(sq, r) == IF sq = <<>> THEN <<r>>
-                       ELSE LET l == sq[Len(sq)] IN
-                            IF l.i < r.i \/ (l.i = r.i /\ l.o <= r.o) THEN Append(sq, r)
-                            ELSE Append(InsertSorted(SubSeq(sq, 1, Len(sq) - 1), r), l)
-RECURSIVE StableSort(_, _)
-StableSort(done, todo) == IF todo = <<>> THEN done ELSE StableSort(InsertSorted(done, Head(todo)), Tail(todo))
+\* sort.Stable(NewByIntervalTicks) / the scan in time order: by (interval, offset), ties in arrival order
+StableSort(sq) == LET idx == SortSeq([k \in 1..Len(sq) |-> k],
+                                     LAMBDA a, b : \/ sq[a].i < sq[b].i
+                                                   \/ (sq[a].i = sq[b].i /\ sq[a].o < sq[b].o)
+                                                   \/ (sq[a].i = sq[b].i /\ sq[a].o = sq[b].o /\ a < b))
+                  IN  [k \in 1..Len(sq) |-> sq[idx[k]]]
 
 NoRec == [v |-> 0, o |-> 0]
 FixedRows(fx) == LET S == SelectSeq([k \in 1..NI |-> k], LAMBDA i : fx[i].v # 0)
                  IN  [k \in 1..Len(S) |-> [i |-> S[k], o |-> fx[S[k]].o, v |-> fx[S[k]].v]]
 
 MasterF == [nanos |-> FALSE, rows |-> FixedRows([i \in Ivs |-> [v |-> mF[i], o |-> 0]])]
-MasterV == IF mV = <<>> THEN [nanos |-> FALSE, rows |-> <<>>] ELSE [nanos |-> TRUE, rows |-> StableSort(<<>>, mV)]
+MasterV == IF mV = <<>> THEN [nanos |-> FALSE, rows |-> <<>>] ELSE [nanos |-> TRUE, rows |-> StableSort(mV)]
 
 \* a bucket of the replica: kind "none" | "fixed" | "variable"; nanos: a fixed bucket whose schema holds the
 \* Nanoseconds column as data; fx: interval -> [v, o] (v = 0: empty); vr: records in arrival order
 NoBucket == [kind |-> "none", nanos |-> FALSE, fx |-> [i \in Ivs |-> NoRec], vr |-> <<>>]
 ViewOf(bk) == IF bk.kind = "none" THEN [nanos |-> FALSE, rows |-> <<>>]
               ELSE IF bk.kind = "fixed" THEN [nanos |-> bk.nanos, rows |-> FixedRows(bk.fx)]
-              ELSE [nanos |-> TRUE, rows |-> StableSort(<<>>, bk.vr)]
+              ELSE [nanos |-> TRUE, rows |-> StableSort(bk.vr)]
 
 (***************************************************************************)
 (* Replay of one transaction group on the replica                          *)
